@@ -42,6 +42,7 @@ INTRO = [
     "print(ord('a'), chr(97), hex(10), bin(2), repr('x'))", "f = open('data.txt')\ncontents = f.read()\nf.close()\nprint(contents)",
     "x = None\nif x is None:\n    x = 0\nprint(x)", "a = 1\nb = 2.0\nprint(a + b, a - b, a * b, a / b, a // b, a % b, a ** b)",
     "s = 'x'\nprint(s.startswith('x'), s.endswith('x'), s.find('x'), s.join(['a', 'b']), s.isdigit(), s.isalpha(), s.title(), s.capitalize())",
+    "x = ()\nfor a in x:\n    print(a)\nprint(len(x), x + (1,))", "pair = ()\nif not pair:\n    pair = (1, 2)\nprint(pair[0])",
     "from dataclasses import dataclass\n@dataclass\nclass P:\n    x: int\n    y: str\np = P(1, 'a')\nprint(p.x, p.y)",
 ]
 
